@@ -169,6 +169,89 @@ def run(ck):
                     ck.fail(f"write mode, compatible header={compat}, closefd={closefd}, outcome '{outcome}': stream.closed == {s.closed}", sc)
                 lines.append(f"st write {int(closefd)} {int(compat)} {int(outcome == 'body_exception')}")
                 meta.append((sc, None, int(s.closed), None))
+    # a writer that also wrote EVLRs (LAS 1.4) owns the stream exactly as one that did not
+    for closefd in (True, False):
+        for outcome in ("normal", "body_exception", "explicit_close", "evlrs_only"):
+            s = st.LogStream()
+            h = laspy.LasHeader(point_format=6, version="1.4")
+            sc = {"kind": "scenario", "mode": "w", "evlrs_written": True, "closefd": closefd, "outcome": outcome}
+            ck.case(("w-evlrs", closefd, outcome), nontrivial=True)
+            from laspy.vlrs.vlrlist import VLRList
+            ev = VLRList([laspy.VLR("verif", 5, "an evlr", b"payload")])
+            try:
+                w = laspy.open(s, mode="w", header=h, closefd=closefd)
+                pts = laspy.ScaleAwarePointRecord.zeros(3, header=w.header)
+                if outcome == "body_exception":
+                    try:
+                        with w:
+                            w.write_points(pts)
+                            w.write_evlrs(ev)
+                            raise RuntimeError("user code")
+                    except RuntimeError:
+                        pass
+                elif outcome == "normal":
+                    with w:
+                        w.write_points(pts)
+                        w.write_evlrs(ev)
+                else:
+                    if outcome != "evlrs_only":
+                        w.write_points(pts)
+                    w.write_evlrs(ev)
+                    w.close()
+            except LaspyException:
+                pass
+            if s.closed != closefd:
+                ck.fail(f"write mode with EVLRs written, closefd={closefd}, outcome '{outcome}': stream.closed == {s.closed}", sc)
+            lines.append(f"st write {int(closefd)} 1 {int(outcome == 'body_exception')}")
+            meta.append((sc, None, int(s.closed), None))
+    # reading fails after the header was accepted: the points are flagged compressed and cannot be decompressed here, or the
+    # source fails inside the point block; laspy.read / the with-block own the stream as in every other case
+    class FailsInPoints(st.LogStream):
+        def __init__(self, data, off):
+            super().__init__(data)
+            self._off = off
+
+        def _check(self):
+            if self._b.tell() >= self._off:
+                raise OSError(5, "Input/output error (injected)")
+
+        def read(self, n=-1):
+            self._check()
+            return super().read(n)
+
+        def readinto(self, buf):
+            self._check()
+            return super().readinto(buf)
+
+    vbase = next(d for (lb, d, i) in files if i["np"] > 0 and i["sig"] and i["hc"] and i["coh"] and i["wr"] and not i["m4"])
+    off_b = int.from_bytes(vbase[96:100], "little")
+    flagged = bytearray(vbase)
+    flagged[104] |= 0x80
+    for what, mk in (("source fails inside the point block", lambda: FailsInPoints(vbase, off_b)),
+                     ("points flagged compressed, nothing to decompress them with", lambda: st.LogStream(bytes(flagged)))):
+        for closefd in (True, False):
+            for api in ("read_las", "open_with_read", "open_with_chunks"):
+                s = mk()
+                sc = {"kind": "scenario", "mode": "r", "content": what, "closefd": closefd, "api": api}
+                ck.case(("r-late-failure", what, closefd, api), nontrivial=True)
+                err = None
+                try:
+                    if api == "read_las":
+                        laspy.read(s, closefd=closefd, laz_backend=())
+                    else:
+                        with laspy.open(s, closefd=closefd, laz_backend=()) as rd:
+                            if api == "open_with_read":
+                                rd.read()
+                            else:
+                                for _ in rd.chunk_iterator(2):
+                                    pass
+                except Exception as e:
+                    err = type(e).__name__
+                ck.count("r_late_failure:" + str(err))
+                if err is None:
+                    ck.count("r_late_failure_did_not_fail")
+                if s.closed != closefd:
+                    ck.fail(f"read mode, {what}, closefd={closefd}, {api} (raised {err}): stream.closed == {s.closed}", sc)
     # LasData.write never closes
     for minor, fmt in ((2, 3), (4, 6)):
         s = st.LogStream()
